@@ -46,7 +46,12 @@ impl<W: Write + Seek> DbcWriter<W> {
 
         // Calculate header values
         let record_count = record_set.len() as u32;
-        let field_count = schema.fields.len() as u32;
+        // The header counts array elements one by one (this is what `Schema::validate` expects)
+        let field_count = schema
+            .fields
+            .iter()
+            .map(|f| if f.is_array { f.array_size.unwrap_or(0) } else { 1 })
+            .sum::<usize>() as u32;
         let record_size = schema.record_size() as u32;
         let string_block_size = string_block.len() as u32;
 
@@ -81,10 +86,15 @@ impl<W: Write + Seek> DbcWriter<W> {
         string_block.push(0);
         string_offsets.insert(String::new(), 0);
 
-        // Add all strings from the record set
-        for record in record_set.records() {
-            for value in record.values() {
-                if let Value::StringRef(string_ref) = value {
+        // Add all strings from the record set (including those referenced from array fields)
+        fn visit(
+            value: &Value,
+            record_set: &RecordSet,
+            string_block: &mut Vec<u8>,
+            string_offsets: &mut HashMap<String, u32>,
+        ) -> Result<()> {
+            match value {
+                Value::StringRef(string_ref) => {
                     let string = record_set.get_string(*string_ref)?;
 
                     if !string_offsets.contains_key(string) {
@@ -96,6 +106,19 @@ impl<W: Write + Seek> DbcWriter<W> {
                         string_block.push(0); // Null terminator
                     }
                 }
+                Value::Array(values) => {
+                    for v in values {
+                        visit(v, record_set, string_block, string_offsets)?;
+                    }
+                }
+                _ => {}
+            }
+            Ok(())
+        }
+
+        for record in record_set.records() {
+            for value in record.values() {
+                visit(value, record_set, &mut string_block, &mut string_offsets)?;
             }
         }
 
